@@ -111,19 +111,18 @@ def conv(v, itf, train=False):
 
 def build_meas(m, i, n):
     w = i % n
-    ob = OBS[i % 3](w)
     ws = [(w + j) % n for j in range(m["w"])]
     k = m["kind"]
     if k == "expval":
-        return qp.expval(ob)
+        return qp.expval(OBS[i % 3](w))
     if k == "var":
-        return qp.var(ob)
+        return qp.var(OBS[i % 3](w))
     if k == "probs":
         return qp.probs(wires=ws) if ws else qp.probs()
     if k == "sample":
         return qp.sample(wires=ws) if ws else qp.sample()
     if k == "sampleobs":
-        return qp.sample(ob)
+        return qp.sample(OBS[i % 3](w))
     if k == "counts":
         return qp.counts(wires=ws) if ws else qp.counts()
     if k == "state":
